@@ -11,8 +11,9 @@
     the C function receives; every read goes through the checked accessors `rd` / `rdN`, so a read
     at or beyond `data.length` is the outcome `.error .oob`, never a default value.
   * Widths: hash arithmetic is `UInt32`/`UInt64`; `unsigned int` loop arithmetic of MD5Update is
-    modulo 2^32; `const int nblocks = nbytes / N` is refused (`assertFail`) when it does not fit
-    an `int`; `(unsigned int) nbytes` of qhashmd5 truncates modulo 2^32.
+    modulo 2^32; the `int` arithmetic of the murmur functions (`const int nblocks = nbytes / N`,
+    `nblocks * N`, `i * N`) is refused (`assertFail`) when it overflows, i.e. for `nbytes ≥ 2^31`;
+    `(unsigned int) nbytes` of qhashmd5 truncates modulo 2^32.
   * Little-endian x86-64: `Encode`/`Decode` of md5c.c are `memcpy`; a `memcpy` into a `uint32_t` /
     `uint64_t` is `le32` / `le64`.
 -/
@@ -93,13 +94,24 @@ def updLoop (input : Bytes) (inputLen : Nat) : (fuel : Nat) → (i : Nat) → Re
       updLoop input inputLen fuel ((i + 64) % 2 ^ 32) (MD5Transform st blk)
     else .ok (st, i)
 
+/-- `(unsigned int) ((context->count[0] >> 3) & 0x3F)`: number of bytes mod 64; shift and mask are
+    the ones of the current source (K-gen) -/
+def bufIndex (c0 : UInt32) : Nat :=
+  ((c0 >>> UInt32.ofNat md5IdxShr) &&& UInt32.ofNat md5IdxMask).toNat
+
+/-- the bit-count update of MD5Update (shift amounts from the current source, K-gen):
+    `if ((count[0] += ((u_int32_t) inputLen << 3)) < ((u_int32_t) inputLen << 3)) count[1]++;`
+    `count[1] += ((u_int32_t) inputLen >> 29);` -/
+def countUpdate (c0 c1 : UInt32) (inputLen : Nat) : UInt32 × UInt32 :=
+  let add : UInt32 := UInt32.ofNat inputLen <<< UInt32.ofNat md5CntShl
+  let c0' := c0 + add
+  let c1' := if c0' < add then c1 + 1 else c1
+  (c0', c1' + (UInt32.ofNat inputLen >>> UInt32.ofNat md5CntShr))
+
 /-- `MD5Update(context, input, inputLen)`, `inputLen < 2^32` being an `unsigned int` -/
 def MD5Update (ctx : MD5Ctx) (input : Bytes) (inputLen : Nat) : Except Fault MD5Ctx := do
-  let idx := ((ctx.count0 >>> 3) &&& 0x3F).toNat
-  let add : UInt32 := UInt32.ofNat inputLen <<< 3
-  let c0 := ctx.count0 + add
-  let c1 := if c0 < add then ctx.count1 + 1 else ctx.count1
-  let c1 := c1 + (UInt32.ofNat inputLen >>> 29)
+  let idx := bufIndex ctx.count0
+  let cnt := countUpdate ctx.count0 ctx.count1 inputLen
   let partLen := 64 - idx
   if inputLen ≥ partLen then
     let part ← rdN input 0 partLen
@@ -108,11 +120,11 @@ def MD5Update (ctx : MD5Ctx) (input : Bytes) (inputLen : Nat) : Except Fault MD5
     let (st, i) ← updLoop input inputLen (inputLen / 64 + 1) partLen st
     let rest ← rdN input i (inputLen - i)
     let buf ← memcpyBuf buf 0 rest
-    pure ⟨st, c0, c1, buf⟩
+    pure ⟨st, cnt.1, cnt.2, buf⟩
   else
     let rest ← rdN input 0 inputLen
     let buf ← memcpyBuf ctx.buffer idx rest
-    pure ⟨ctx.state, c0, c1, buf⟩
+    pure ⟨ctx.state, cnt.1, cnt.2, buf⟩
 
 /-- a sequence of `MD5Update` calls, one per chunk (each chunk in its own exactly sized buffer) -/
 def MD5UpdateAll (ctx : MD5Ctx) (chunks : List Bytes) : Except Fault MD5Ctx :=
@@ -125,7 +137,7 @@ def MD5UpdateAll (ctx : MD5Ctx) (chunks : List Bytes) : Except Fault MD5Ctx :=
 /-- `MD5Pad`: `Encode(bits, count, 8)`; pad out to 56 mod 64 from PADDING; append the length -/
 def MD5Pad (ctx : MD5Ctx) : Except Fault MD5Ctx := do
   let bits := bytes32 ctx.count0 ++ bytes32 ctx.count1
-  let idx := ((ctx.count0 >>> 3) &&& 0x3f).toNat
+  let idx := bufIndex ctx.count0
   let padLen := if idx < 56 then 56 - idx else 120 - idx
   let ctx ← MD5Update ctx md5Padding padLen
   MD5Update ctx bits 8
@@ -280,7 +292,7 @@ def fmix32 (h : UInt32) (p : List Nat) : UInt32 :=
 /-- `qhashmurmur3_32(data, nbytes)` for non-NULL data -/
 def qhashmurmur3_32 (data : Bytes) (nbytes : Nat) : Except Fault UInt32 :=
   if nbytes = 0 then .ok 0
-  else if nbytes / 4 ≥ 2 ^ 31 then .error .assertFail     -- `const int nblocks` overflows
+  else if nbytes / 4 * 4 ≥ 2 ^ 31 then .error .assertFail -- `int`: `nblocks * 4`, `i * 4` overflow
   else do
     let nblocks := nbytes / 4
     let h ← m32Loop data nblocks 0 0
@@ -331,7 +343,7 @@ def fmix64 (h : UInt64) (p : List Nat) : UInt64 :=
     bytes are the two `memcpy` stores of h1 and h2 -/
 def qhashmurmur3_128 (data : Bytes) (nbytes : Nat) : Except Fault (Option Bytes) :=
   if nbytes = 0 then .ok none
-  else if nbytes / 16 ≥ 2 ^ 31 then .error .assertFail    -- `const int nblocks` overflows
+  else if nbytes / 16 * 16 ≥ 2 ^ 31 then .error .assertFail -- `int`: `nblocks * 16`, `(i * 2 + 1) * 8` overflow
   else do
     let nblocks := nbytes / 16
     let (h1, h2) ← m128Loop data nblocks 0 0 0
